@@ -18,7 +18,7 @@ from elementpath.exceptions import ElementPathValueError
 from elementpath.datatypes import AnyAtomicType
 from elementpath.sequences import xlist
 from elementpath.helpers import split_function_test
-from elementpath.sequence_types import match_sequence_type
+from elementpath.sequence_types import match_sequence_type, is_sequence_type_restriction
 from elementpath.xpath_context import XPathSchemaContext
 from .functions import XPathFunction
 
@@ -246,12 +246,13 @@ class XPathMap(XPathFunction):
         elif len(sequence_types) != 2:
             return False
 
+        # A map is a function(xs:anyAtomicType) as V?, V being the type of its values: it matches
+        # function(K) as R if K is a subtype of xs:anyAtomicType (parameters are contravariant)
+        # and every value, and the empty sequence of a missing key, match R.
         key_st, value_st = sequence_types
-        if key_st.endswith(('+', '*')):
+        if not is_sequence_type_restriction('xs:anyAtomicType', key_st):
             return False
-        elif value_st != 'empty-sequence()' and not value_st.endswith(('?', '*')):
+        elif not match_sequence_type([], value_st, self.parser):
             return False
         else:
-            return any(match_sequence_type(k, key_st, self.parser, False) and
-                       match_sequence_type(v, value_st, self.parser)
-                       for k, v in self.items())
+            return all(match_sequence_type(v, value_st, self.parser) for v in self.values())
